@@ -320,7 +320,7 @@ Lemma frame_data s o : (forall d f, o <> Rebind d f) ->
   s_data (snd (step s o)) = s_data s /\ s_fs (snd (step s o)) = s_fs s.
 Proof.
   destruct o as [b c p|b| |b args|d f|]; cbn [step]; intros Ho.
-  - destruct (s_fs s); split; reflexivity.
+  - destruct (s_fs s) eqn:E; cbn [snd set_algs s_data s_fs]; rewrite ?E; split; reflexivity.
   - destruct (lookup b (s_algs s)) as [x|]; [|split; reflexivity]. destruct (run_alg x); split; reflexivity.
   - destruct (run_each (s_algs s)). split; reflexivity.
   - destruct (lookup b (s_algs s)) as [x|]; [|split; reflexivity]. destruct (mpe_alg args x); split; reflexivity.
@@ -370,7 +370,7 @@ Proof.
     + intros a y. destruct (Nat.eq_dec b a) as [->|Hne].
       * rewrite (lookup_update_same a x' x _ Hl). intros H. injection H as <-. exact (proj1 (run_alg_wf x x' Er)).
       * rewrite lookup_update_other by exact Hne. apply Hw.
-  - destruct (run_each (s_algs s)) as [e l'] eqn:E. cbn [snd set_algs s_algs]. split.
+  - destruct (run_each (s_algs s)) as [e l'] eqn:E. unfold wf_setup. cbn [snd set_algs s_algs]. split.
     + pose proof (keys_run_each (s_algs s)) as H. rewrite E in H. cbn [snd] in H. rewrite H. exact Hn.
     + intros a y Hy. pose proof (lookup_run_each a (s_algs s)) as H. rewrite E in H. cbn [snd] in H.
       destruct (lookup a (s_algs s)) as [x|] eqn:Hl; [|rewrite H in Hy; discriminate].
@@ -391,6 +391,9 @@ Qed.
 Lemma exec_wf h s : wf_setup s -> wf_setup (exec h s).
 Proof. revert s. induction h as [|o t IH]; intros s H; cbn [exec fold_left]; [exact H|]. apply IH. apply step_wf. exact H. Qed.
 
+Lemma reachable_wf d0 f0 h : wf_setup (exec h (new_setup d0 f0)).
+Proof. exact (exec_wf h _ (wf_new d0 f0)). Qed.
+
 Lemma exec_app h1 h2 s : exec (h1 ++ h2) s = exec h2 (exec h1 s).
 Proof. unfold exec. apply fold_left_app. Qed.
 
@@ -405,8 +408,8 @@ Proof.
             option_map binding_of (lookup a (s_algs (snd (step s o)))) = tlookup a (t_tab t)).
   { intros a Ha. rewrite step_keeps_binding by exact Ha. apply Hb. }
   destruct o as [b c p|b| |b args|d f|].
-  - cbn [step track1]. rewrite <- Hf. destruct (s_fs s) as [f|] eqn:Ef; cbn [snd]; [|repeat split; assumption].
-    repeat split; cbn [set_algs s_data s_fs s_algs t_data t_fs t_tab]; [exact Hd|rewrite Ef; exact Hf|].
+  - cbn [step track1]. rewrite <- Hf. destruct (s_fs s) as [f|] eqn:Ef; cbn [snd]; [|repeat split; [exact Hd|congruence|exact Hb]].
+    repeat split; cbn [set_algs s_data s_fs s_algs t_data t_fs t_tab]; [exact Hd|congruence|].
     intros a. cbn [tlookup]. destruct (Nat.eqb b a) eqn:E.
     + apply Nat.eqb_eq in E. subst b. rewrite lookup_upsert_same. cbn [option_map binding_of a_cls a_params a_bound].
       rewrite Hd. reflexivity.
@@ -504,24 +507,33 @@ Proof.
 Qed.
 
 (* ---------------------------------------------------------------- run_all is the fold of run_by_name *)
-Lemma run_names_stuck e s ns :
-  fold_left (fun (acc:option err * setup) n => match fst acc with Some _ => acc | None => step (snd acc) (RunByName n) end)
-            ns (Some e, s) = (Some e, s).
-Proof. induction ns as [|n t IH]; cbn [fold_left fst]; [reflexivity|exact IH]. Qed.
+Lemma run_names_stuck e s ns : fold_left run_step ns (Some e, s) = (Some e, s).
+Proof. induction ns as [|n t IH]; cbn [fold_left]; [reflexivity|exact IH]. Qed.
+
+Lemma run_step_first dd ff pre n x t : ~ In n (map fst pre) ->
+  run_step (None, mkSetup dd ff (pre ++ (n,x)::t)) n =
+  match run_alg x with
+  | inl e => (Some e, mkSetup dd ff (pre ++ (n,x)::t))
+  | inr x' => (None, mkSetup dd ff (pre ++ (n,x')::t))
+  end.
+Proof.
+  intros Hnot. unfold run_step. cbn [fst snd step s_algs]. rewrite (lookup_app_notin n pre _ Hnot).
+  cbn [lookup]. rewrite Nat.eqb_refl. destruct (run_alg x) as [e|x']; [reflexivity|].
+  cbn [set_algs s_data s_fs s_algs]. rewrite (update_app_notin n x' pre _ Hnot). cbn [update]. rewrite Nat.eqb_refl. reflexivity.
+Qed.
 
 Lemma run_all_fold_gen dd ff rest : forall pre, NoDup (map fst (pre ++ rest)) ->
   run_names (mkSetup dd ff (pre ++ rest)) (map fst rest)
   = (fst (run_each rest), mkSetup dd ff (pre ++ snd (run_each rest))).
 Proof.
-  unfold run_names. induction rest as [|[n x] t IH]; intros pre Hn; cbn [map fst fold_left run_each snd].
+  unfold run_names. induction rest as [|[n x] t IH]; intros pre Hn.
   - reflexivity.
   - assert (Hnot : ~ In n (map fst pre)).
     { rewrite map_app in Hn. cbn [map fst] in Hn. intros Hin. apply NoDup_remove_2 in Hn. apply Hn. apply in_or_app. left. exact Hin. }
-    cbn [step s_algs]. rewrite (lookup_app_notin n pre _ Hnot). cbn [lookup]. rewrite Nat.eqb_refl.
-    destruct (run_alg x) as [e|x'] eqn:Er; cbn [fst snd].
-    + apply run_names_stuck.
-    + cbn [set_algs s_data s_fs s_algs]. rewrite (update_app_notin n x' pre _ Hnot). cbn [update]. rewrite Nat.eqb_refl.
-      replace (pre ++ (n,x')::t) with ((pre ++ [(n,x')]) ++ t) by (rewrite <- app_assoc; reflexivity).
+    cbn [map fst fold_left]. rewrite (run_step_first dd ff pre n x t Hnot). cbn [run_each].
+    destruct (run_alg x) as [e|x'] eqn:Er.
+    + cbn [fst snd]. apply run_names_stuck.
+    + replace (pre ++ (n,x')::t) with ((pre ++ [(n,x')]) ++ t) by (rewrite <- app_assoc; reflexivity).
       rewrite IH.
       * destruct (run_each t) as [e t']. cbn [fst snd]. rewrite <- app_assoc. reflexivity.
       * rewrite <- app_assoc. cbn [app]. rewrite map_app in *. cbn [map fst] in *. exact Hn.
@@ -530,7 +542,7 @@ Qed.
 Lemma run_all_is_fold s : NoDup (map fst (s_algs s)) -> step s RunAll = run_names s (map fst (s_algs s)).
 Proof.
   destruct s as [dd ff l]. cbn [s_algs]. intros Hn.
-  rewrite (run_all_fold_gen dd ff l [] Hn). cbn [step s_algs app set_algs s_data s_fs].
+  pose proof (run_all_fold_gen dd ff l [] Hn) as H. cbn [app] in H. rewrite H. cbn [step s_algs set_algs s_data s_fs].
   destruct (run_each l) as [e l']. reflexivity.
 Qed.
 
@@ -566,8 +578,9 @@ Proof.
   - apply Nat.eqb_eq in Ht. subst b. destruct (s_fs s); cbn [snd set_algs s_algs]; [|exact Hs].
     rewrite lookup_upsert_same. intros x H. injection H as <-. reflexivity.
   - rewrite Ht in Hr. discriminate.
-  - apply Nat.eqb_eq in Ht. subst b. destruct (lookup a (s_algs s)) as [y|] eqn:Hl; cbn [snd]; [|exact Hs].
-    unfold mpe_alg. rewrite (Hs y Hl) by reflexivity. exact Hs.
+  - apply Nat.eqb_eq in Ht. subst b. intros x0. destruct (lookup a (s_algs s)) as [y|] eqn:Hl; cbn [snd].
+    + unfold mpe_alg. rewrite (Hs y eq_refl). cbn [snd]. rewrite Hl. exact (Hs x0).
+    + rewrite Hl. discriminate.
 Qed.
 
 Lemma never_run_no_result d0 f0 h a : (forall o, In o h -> is_run o a = false) ->
